@@ -727,16 +727,16 @@ pub fn run_real(case: &ProcCase, real: &Real) -> ProcOutcome {
 	let mut out = ProcOutcome::default();
 	if let Real::ClosingPipe(k) = real {
 		if let Some(mut so) = child.stdout.take() {
-			let mut buf = vec![0u8; *k];
-			let mut got = 0;
-			while got < *k {
-				match so.read(&mut buf[got..]) {
+			let mut all = vec![];
+			let mut chunk = [0u8; 8192];
+			while all.len() < *k {
+				let want = (*k - all.len()).min(chunk.len());
+				match so.read(&mut chunk[..want]) {
 					Ok(0) | Err(_) => break,
-					Ok(n) => got += n,
+					Ok(n) => all.extend_from_slice(&chunk[..n]),
 				}
 			}
-			buf.truncate(got);
-			out.stdout = buf;
+			out.stdout = all;
 			drop(so); // the consumer goes away
 		}
 	}
